@@ -88,12 +88,16 @@ class ControlFlowTransformer(converter.Base):
                 var_=v,
                 name=ast.Constant(str(v))))
 
+    # Note: the parameter of the setter must not collide with a state variable.
+    vars_name = self.ctx.namer.new_symbol(
+        'vars_',
+        tuple(block_vars) + tuple(self.state[_Function].scope.referenced))
     template = """
       def getter_name():
         return guarded_state_vars,
-      def setter_name(vars_):
+      def setter_name(vars_name):
         nonlocal_declarations
-        state_vars, = vars_
+        state_vars, = vars_name
     """
     return templates.replace(
         template,
@@ -101,7 +105,8 @@ class ControlFlowTransformer(converter.Base):
         getter_name=getter_name,
         guarded_state_vars=guarded_block_vars,
         setter_name=setter_name,
-        state_vars=tuple(block_vars))
+        state_vars=tuple(block_vars),
+        vars_name=vars_name)
 
   def _create_loop_options(self, node):
     if not anno.hasanno(node, anno.Basic.DIRECTIVES):
